@@ -316,6 +316,10 @@ def run(ctx):
     import sys
     C18_attrs.run(ctx, sys.modules[__name__])
     # <<< a_c18
+    # >>> s_c18 (wave 6): ladder streams, one size dimension at a time (props/C18_sizes.py, structs of harness/src/fam_derive3.rs)
+    from props import C18_sizes
+    C18_sizes.run(ctx, sys.modules[__name__], C18_attrs)
+    # <<< s_c18
 
 
 def search(ctx):
